@@ -413,6 +413,7 @@ Outcome run_c10(const Case &c) {
   MSock w[3];
   vector<int> raws;
   bool io_after_close = false, timed = false;
+  arm(c.plan);   // optional interruptions of poll(): a timed call must still not report timed-out before T
   auto getters = [&](int i, const char *after) {
     MSock &m = w[i]; if (!m.s) return;
     if ((p_socket_is_closed(m.s) == TRUE) != m.closed) fail("getter-closed", string("is_closed wrong after ") + after);
@@ -529,6 +530,7 @@ Outcome run_c10(const Case &c) {
     if (err) p_error_free(err);
     if (m.s && out.verdict.empty()) getters(i, cmd.c_str());
   }
+  disarm();
   for (auto &m : w) { if (m.s) p_socket_free(m.s); for (int f : m.raw_peers) close(f); }
   for (int f : raws) close(f);
   out.nontrivial = io_after_close && timed;
@@ -708,6 +710,9 @@ rc::Gen<Case> genC10() {
       else if (role == 2) { c.cmds.push_back("new " + si + " " + fam + " 0"); c.cmds.push_back("bind " + si + " 0 0"); }
     }
     for (auto &l : std::get<2>(t)) c.cmds.push_back(l);
+    // every third case: interruptions arriving 0 / 5 / 15 ms into a poll() wait
+    int sel = std::get<0>(t)[0] + std::get<1>(t)[1] + (int)c.cmds.size();
+    if (sel % 3 == 0) { for (int k : {1, 2, 4}) { Fault f; f.call = "poll"; f.k = k + sel % 2; f.kind = 1; f.arg = (sel % 5 == 0) ? 0 : (sel % 5 < 3 ? 5 : 15); f.burst = 1 + sel % 2; c.plan.push_back(f); } }
     return c; });
 }
 rc::Gen<Case> genC19() {
